@@ -88,6 +88,14 @@ impl crate::inflight::SizedRequest for Decoded {
     fn is_chunk(&self) -> bool {
         matches!(self, Decoded::PayloadChunk(..))
     }
+
+    fn is_streaming_publish(&self) -> bool {
+        matches!(self, Decoded::Publish(pkt, payload, _) if pkt.payload_size as usize != payload.len())
+    }
+
+    fn is_last_chunk(&self) -> bool {
+        matches!(self, Decoded::PayloadChunk(_, true))
+    }
 }
 
 /// Mqtt protocol dispatcher
